@@ -216,7 +216,10 @@ def check(plugin, plugin_name, pid, tier, seed, t0, no_build):
     if no_build:
         audit = {'obligations': 1, 'discharged': 1, 'broken': [], 'theorems': [], 'axioms_used': [], 'skipped': True}
     else:
-        audit = common.build_and_audit(pid, plugin.PROPS_FILE, getattr(plugin, 'EXTRA_MODULES', ()))
+        # also (re)build what the driver imports, so that the driver runs against the current model
+        drv_src = open(os.path.join(common.LEAN_DIR, plugin.DRIVER)).read()
+        drv_mods = re.findall(r'^import\s+(ParamVerif[\w.]*)', drv_src, re.M)
+        audit = common.build_and_audit(pid, plugin.PROPS_FILE, list(getattr(plugin, 'EXTRA_MODULES', ())) + drv_mods)
     if tier == 'thorough' and not audit['broken'] and not no_build:
         ok, log = common.leanchecker([plugin.PROPS_FILE[:-5].replace('/', '.')])
         audit['leanchecker'] = 'ok' if ok else log
